@@ -378,21 +378,32 @@ def run(ctx):
     ncases = char6_part(ctx)
     sweep_part(ctx)
     terms, meta = seq_part(ctx)
-    ins = conc_inputs(ctx, ctx.budget(200, 3000))
+    ins = conc_inputs(ctx, ctx.budget(800, 6000))
     outs = ctx.impl("intern", ins, shards=4)
-    for i, o in zip(ins, outs):
-        conc_oracle(ctx, i, o, terms, meta, "conc")
+    # every run goes through the direct oracle; the first ones (and every one the oracle flags) also go to the model
+    ncoq = ctx.budget(150, 1500)
+    for k, (i, o) in enumerate(zip(ins, outs)):
+        nv = len(ctx.violations)
+        sink_t, sink_m = ([], []) if k >= ncoq else (terms, meta)
+        conc_oracle(ctx, i, o, sink_t, sink_m, "conc")
+        if k >= ncoq and len(ctx.violations) > nv and len(meta) < ncoq + 20:
+            terms += sink_t
+            meta += sink_m
     ctx.sample({"mode": "conc", "goroutines": len(ins[0]["progs"]), "progs": ins[0]["progs"][:2], "ids": outs[0].get("ids", [])[:2], "log": outs[0].get("log")})
     if ctx.tier == "thorough":
-        rins = conc_inputs(ctx, 1500)
-        routs = ctx.impl("intern", rins, race=True, shards=8, env={"GORACE": "halt_on_error=1"})
+        rins = conc_inputs(ctx, 2000)
+        routs = ctx.impl("intern", rins, race=True, shards=8, env={"GORACE": "halt_on_error=1 exitcode=66"})
         nrace = 0
         for i, o in zip(rins, routs):
-            if "crash" in o and "DATA RACE" not in str(o["crash"]) and nrace:
-                continue   # cases after the halted one in the same shard were simply not run
-            if "crash" in o:
+            if "crash" in o and ("exit 66" in str(o["crash"]) or "DATA RACE" in str(o["crash"])):
+                # the race detector halted this shard; the first unanswered case is the one that was running
                 nrace += 1
-            conc_oracle(ctx, i, o, terms, meta, "conc-race")
+                if nrace == 1:
+                    ctx.violation("data-race", "the race detector reported a data race during concurrent Intern/Value (exit code 66)",
+                                  {"input": i, "observed": o, "rerun": "go build -race -tags verif ./cmd/intern; GORACE=halt_on_error=1 ./intern < case"})
+                continue
+            conc_oracle(ctx, i, o, [], [], "conc-race")
+        ctx.extra["race_reports"] = nrace
         ctx.extra["race_detector_runs"] = len(rins)
     header = ("From Coq Require Import List NArith ZArith Bool.\nImport ListNotations.\n"
               "From PV Require Import Common.Corr Model.Char6 Model.Intern.\nOpen Scope Z_scope.\n")
@@ -406,8 +417,8 @@ def run(ctx):
                 "(random alphabet strings, a dot / a foreign byte at every position), hand-picked dot cases, all 256 single bytes, random strings "
                 "(len 0..12), and decode on boundary / random int32 ids; plus an implementation-side sweep of ALL 64^0+..+64^5 alphabet strings; "
                 "table: random op sequences (Intern/Query/Value) on one table run sequentially against the model's sequential schedule, and random "
-                "string multisets interned by 2..32 goroutines (same order / own order / random repeats) checked against the model run in the observed "
-                "commit order; distinct = distinct input string / id / op sequence / program set; non-trivial = non-empty string, at least one Intern, "
+                "string multisets interned by 2..32 goroutines (same order / own order / random repeats): every run through the direct oracle, the first "
+                "150 (quick) also checked against the model run in the observed commit order; distinct = distinct input string / id / op sequence / program set; non-trivial = non-empty string, at least one Intern, "
                 "more than one goroutine with at least one table string")
     ctx.exhaustive = True
     ctx.extra["exhaustive_part"] = ("all strings of length <= 2 over 67 symbols (model vs implementation); implementation-side oracle: "
